@@ -1039,14 +1039,71 @@ class PendingFunctionDef(_PendingCompoundStmt[FunctionDef]):
                 keywords=[],
             )
 
-        if self.internal_nsp.is_method and self.node.name == "__init_subclass__":
-            # We need to add a @classmethod for __init_subclass__
-            # that's really weird, but really solves problem
-            body_expr = Call(
-                func=Name(id="classmethod", ctx=Load()),
-                args=[body_expr],
-                keywords=[],
-            )
+        if self.internal_nsp.is_method and self.node.name in (
+            "__init_subclass__",
+            "__class_getitem__",
+        ):
+            # type.__new__ turns these two hooks into class methods, but only
+            # when the member is a plain function. The class is created empty
+            # and filled with setattr afterwards, so that has to be done here.
+            if not self.node.decorator_list:
+                body_expr = Call(
+                    func=Name(id="classmethod", ctx=Load()),
+                    args=[body_expr],
+                    keywords=[],
+                )
+            else:
+                # whatever the decorators returned: wrap it only if it is a
+                # plain function (`@classmethod` written out must not be
+                # wrapped twice)
+                hook = ol_name(OL_CLASS_HOOK)
+                body_expr = Call(
+                    func=Lambda(
+                        args=arguments(
+                            posonlyargs=[],
+                            args=[arg(arg=hook)],
+                            kwonlyargs=[],
+                            kw_defaults=[],
+                            defaults=[],
+                        ),
+                        body=IfExp(
+                            test=Compare(
+                                left=Call(
+                                    func=Name(id="type", ctx=Load()),
+                                    args=[Name(id=hook, ctx=Load())],
+                                    keywords=[],
+                                ),
+                                ops=[Is()],
+                                comparators=[
+                                    Call(
+                                        func=Name(id="type", ctx=Load()),
+                                        args=[
+                                            Lambda(
+                                                args=arguments(
+                                                    posonlyargs=[],
+                                                    args=[],
+                                                    kwonlyargs=[],
+                                                    kw_defaults=[],
+                                                    defaults=[],
+                                                ),
+                                                body=Constant(value=0),
+                                            )
+                                        ],
+                                        keywords=[],
+                                    )
+                                ],
+                            ),
+                            body=Call(
+                                func=Name(id="classmethod", ctx=Load()),
+                                args=[Name(id=hook, ctx=Load())],
+                                keywords=[],
+                            ),
+                            orelse=Name(id=hook, ctx=Load()),
+                        ),
+                    ),
+                    args=[body_expr],
+                    keywords=[],
+                )
 
         return [self.nsp.get_assign(self.node.name, body_expr)]
 
